@@ -26,6 +26,16 @@ const ESC_MARK: char = '\u{e000}';
 const NAME_POOL: &[&str] = &["a", "b", "v", "x", "name", "n1", "", "é", "a.b", "a::b", "a-b", "A", "日", "a$b", "a{b", "a\"b", "a#b", "$", "%", "{", "a%b", "😀", ":", "!", "'"];
 
 fn var_name(t: &mut Tape) -> String {
+    if t.chance(1, 40) {
+        // a long name: 40..400 characters (no length limit is documented)
+        let unit = *t.pick_ref(&["a", "k9", "日", "é_", "long.name::"]);
+        let n = 40 + t.below(360);
+        let mut s = String::new();
+        while s.chars().count() < n {
+            s.push_str(unit);
+        }
+        return s;
+    }
     if t.chance(5, 6) {
         t.pick(NAME_POOL).to_string()
     } else {
@@ -205,6 +215,9 @@ fn gen_case(t: &mut Tape, st: &mut Stats) -> Case {
         }
         if n.is_empty() {
             st.class("empty-name");
+        }
+        if n.len() > 128 {
+            st.class("name-longer-than-128-bytes");
         }
     }
     Case { vars, tmpls, nontrivial }
@@ -401,7 +414,7 @@ fn case_text(t: &mut Tape, st: &mut Stats) -> Verdict {
 pub fn property() -> Property {
     Property {
         id: "C02",
-        rule: "1..8 argument templates (literal text free of $ % \\, ${name}, \\${name}, whole-argument %{name}) over 1..6 names (incl. empty and odd names) and an environment of arbitrary-Unicode values biased to syntax look-alikes that refer to existing names; received arguments compared (count, order, text) with a reference expander. Drivers: direct (run_instruction on an in-memory instruction) and text (rendered line run by run_script, values delivered at run time by 'v = put i'). Non-trivial: a substituted value with a non-alphanumeric character, or a spread of != 1 words; distinct by (templates, environment) hash",
+        rule: "1..8 argument templates (literal text free of $ % \\, ${name}, \\${name}, whole-argument %{name}) over 1..6 names (incl. empty, odd and 40..400-character names) and an environment of arbitrary-Unicode values biased to syntax look-alikes that refer to existing names; received arguments compared (count, order, text) with a reference expander. Drivers: direct (run_instruction on an in-memory instruction) and text (rendered line run by run_script, values delivered at run time by 'v = put i'). Non-trivial: a substituted value with a non-alphanumeric character, or a spread of != 1 words; distinct by (templates, environment) hash",
         assumptions: &[
             "spread words never start with '\"' and never contain '#' (the re-split honours quotes and comments; the property speaks of space-separated words)",
             "names are free of white space, '=' and '}' and contain no backslash and not the openers '${' / '%{' (inside an escaped reference the name is scanned as ordinary text, so such a name is itself read as syntax); literal text is free of '$', '%' and backslash",
@@ -414,7 +427,7 @@ pub fn property() -> Property {
                     Tier::Thorough => Plan::Random { cases: 15_000_000, max_len: 300 },
                 },
                 case: case_direct,
-                min_classes: &[("value-looks-like-expansion", 5000), ("undefined-name", 5000), ("empty-name", 1000), ("spread-0-words", 2000), ("spread-spaces-only", 300), ("escaped-reference", 5000), ("spread-word-starts-with-backslash", 300)],
+                min_classes: &[("value-looks-like-expansion", 5000), ("undefined-name", 5000), ("empty-name", 1000), ("name-longer-than-128-bytes", 1000), ("spread-0-words", 2000), ("spread-spaces-only", 300), ("escaped-reference", 5000), ("spread-word-starts-with-backslash", 300)],
             },
             Section {
                 name: "text",
